@@ -6,6 +6,7 @@ def ev_only(tl):
     return [(t,) + desc(m) for t, m in tl[0]]
 
 
+@guarded
 def check_pad(r, items, n, via_abs):
     inp = {"items": items, "n": n, "via_abs": via_abs}
     s = rseq(items)
@@ -23,6 +24,7 @@ def check_pad(r, items, n, via_abs):
         return r.fail("pad", inp, "absolute view disagrees after pad")
 
 
+@guarded
 def check_scale(r, items, k):
     inp = {"items": items, "k": k}
     s = rseq(items)
@@ -36,6 +38,7 @@ def check_scale(r, items, k):
         return r.fail("scale", inp, "non-integer times")
 
 
+@guarded
 def check_channel(r, items, c):
     inp = {"items": items, "c": c}
     s = rseq(items)
@@ -51,6 +54,7 @@ def check_channel(r, items, c):
         return r.fail("set_channel", inp, "absolute view keeps an old channel")
 
 
+@guarded
 def check_cutoff(r, notes, extras, m, red):
     inp = {"notes": notes, "extras": extras, "m": m, "r": red}
     items = notes_to_rel([tuple(n) for n in notes], [tuple(e) for e in extras])
